@@ -8,11 +8,13 @@ CLAIM = ('Decides statically the mechanisms that make a hash independent of obje
          'drivers and cover the whole workspace; every per-program VM field is assigned by initialize(); the bytecode decoder defines every field its executors read '
          '(bytecode[] survives across programs, keys and v1/v2 switches, so an undefined field would be a stale one); key bookkeeping follows every bind; the same-key '
          'shortcut of randomx_vm_set_cache compares every pointer a setCache override captures; v1/v2 switches reach the compiler; first/next/last are the single-call '
-         'sequence. Equality of digests over histories is numeric and not claimed.')
+         'sequence. Equality of digests over histories is numeric and not claimed.'
+         ' Also: every v1/v2 patch the AArch64 back-end applies to its persistent code buffer is undone by the other arm (V2-SYM), and the fused fingerprint-and-refill covers exactly the scratchpad for every size (AES-COVER).')
 LEVEL_NOTE = ('Trusted: clang 14 AST of the build flags; the design assumption that cache content is a function of the key; hand-written asm prologue zeroes r0-r7 '
               '(checked as constants in C04), JIT-emitted code reads only what initialize()/generateProgram wrote.')
 EXPLANATION = ('Rules DRV-RESET, DRV-SEQ, DRV-SIB, DRV-REFILL, VM-STATEINIT, BIND-KEY, BIND-GUARD, FLAG-PROP and DEC-DEFUSE evaluated on the resolved AST of '
-               'src/randomx.cpp, virtual_machine.cpp, vm_*.cpp and bytecode_machine.cpp for every template instantiation.')
+               'src/randomx.cpp, virtual_machine.cpp, vm_*.cpp and bytecode_machine.cpp for every template instantiation.'
+               ' V2-SYM (A64), AES-FUSED, AES-COVER, A2-SKELETON.')
 
 
 def run(ctx, R):
